@@ -34,3 +34,11 @@ fn('mouette.mesh.mesh._instanciate_raw_mesh_data', params={'mesh_data': 'RawMesh
             'len(result.faces._data) == len(mesh_data.faces._data)',
             'all(result.faces._data[i] == mesh_data.faces._data[i] for i in range(len(mesh_data.faces._data)))'],
    note='C02 contract of prepare(): vertices and declared faces are kept in order (no cells here)')
+
+BUILT = ['len(result.vertices._data) == len(data.vertices._data)',
+         'all(result.vertices._data[i] == data.vertices._data[i] for i in range(len(data.vertices._data)))',
+         'len(result.faces._data) == len(data.faces._data)',
+         'all(result.faces._data[i] == data.faces._data[i] for i in range(len(data.faces._data)))']
+for cls in ('mouette.mesh.datatypes.surface.SurfaceMesh', 'mouette.mesh.datatypes.linear.PolyLine', 'mouette.mesh.datatypes.pointcloud.PointCloud'):
+    fn(cls, params={'data': 'RawMeshData'}, returns='BuiltMesh', trusted=True, ensures=BUILT,
+       note='constructor from raw data: prepare() keeps vertices and declared faces in order (C02 contract)')
